@@ -195,7 +195,7 @@ func (propC10) Check(c *Case) (*Violation, *RunInfo) {
 	envA.Sandbox = sandbox + "/a"
 	hist := Exec(c.Recipe, envA)
 	ri.Steps = simA.Steps
-	ri.Frozen = []ExecSpec{{Mode: "replay", Perms: simA.Log}}
+	ri.Frozen = []ExecSpec{frozenSpec(simA)}
 	var viol *Violation
 	var keys []string
 	for i := range hist {
